@@ -45,6 +45,30 @@ def run_one(m):
     finally:
         shutil.rmtree(tmp, ignore_errors=True)
 
+def run_seeded(job):
+    """A confirmed, independently written property-breaking change (seeded/<id>/patch.diff):
+    the check of the property it breaks must report it."""
+    d, prop = job
+    meta = json.load(open(os.path.join(d, "meta.json")))
+    m = {"id": "seeded:" + meta["id"], "prop": prop, "expect": "VIOLATION property=" + prop}
+    tmp = tempfile.mkdtemp(prefix="vselftest.")
+    try:
+        dst = os.path.join(tmp, "repo")
+        shutil.copytree(REPO, dst, ignore=shutil.ignore_patterns(".git"))
+        r = subprocess.run(["patch", "-s", "-p1", "--fuzz=3", "-i", os.path.join(d, "patch.diff")], cwd=dst, capture_output=True, text=True)
+        if r.returncode != 0:
+            return (m, "ok", "patch no longer applies to the current tree (skipped)")
+        r = subprocess.run([os.environ.get("VERIFCHECK_BIN", os.path.join(VERIF, "bin/verifcheck")), "-repo", dst, "-verif", VERIF, "-prop", prop,
+                            "-tier", "quick", "-evidence", os.path.join(tmp, "ev.json")], capture_output=True, text=True)
+        out = r.stdout + r.stderr
+        if r.returncode == 2:
+            return (m, "corpus-error", out[-500:])
+        if r.returncode == 1 and m["expect"] in out:
+            return (m, "ok", "reported")
+        return (m, "MISSED", "the check of %s was silent on a confirmed %s-breaking change" % (prop, prop))
+    finally:
+        shutil.rmtree(tmp, ignore_errors=True)
+
 def run_benign(job):
     """A behaviour-preserving refactoring (sub-agent written patch): the check must stay silent."""
     path, prop = job
@@ -101,9 +125,23 @@ def main():
                 if status != "ok":
                     print("selftest %-28s %-4s %-12s %s" % (m["id"], prop, status, detail))
                     bad += 1
-    print("selftest: %d mutants + %d behaviour-preserving refactorings, %d problems" % (len(muts), nb, bad))
+    ns = 0
+    if only is None or only.startswith("seeded:"):
+        sjobs = []
+        for mj in sorted(glob.glob(os.path.join(VERIF, "seeded", "*", "meta.json"))):
+            meta = json.load(open(mj))
+            if (prop == "all" or meta["breaks_property"] == prop) and (only is None or only == "seeded:" + meta["id"]):
+                sjobs.append((os.path.dirname(mj), meta["breaks_property"]))
+        with cf.ThreadPoolExecutor(max_workers=jobs) as ex:
+            for m, status, detail in ex.map(run_seeded, sjobs):
+                ns += 1
+                results.append({"id": m["id"], "expect": m["expect"], "status": status})
+                if status != "ok":
+                    print("selftest %-28s %-4s %-12s %s" % (m["id"], m["prop"], status, detail))
+                    bad += 1
+    print("selftest: %d mutants + %d seeded changes + %d behaviour-preserving refactorings, %d problems" % (len(muts), ns, nb, bad))
     if jout:
-        json.dump({"mutants": len(muts), "benign_refactorings": nb, "problems": bad, "results": results}, open(jout, "w"))
+        json.dump({"mutants": len(muts), "seeded_changes": ns, "benign_refactorings": nb, "problems": bad, "results": results}, open(jout, "w"))
     return 1 if bad else 0
 
 if __name__ == "__main__":
